@@ -261,6 +261,15 @@ class ExprMixin:
             from .engine import BoundSym
             return const(BoundSym(base, ('builtin', attr), None))
         if k.name == 'tuple':
+            ncls = self.reg.tuple_classes.get(repr(k))
+            if ncls is not None:
+                from .engine import BoundSym
+                fields = getattr(ncls, '_fields', ())
+                if attr in fields:
+                    return self.tuple_items(base)[fields.index(attr)]
+                raw = ncls.__dict__.get(attr)
+                if callable(raw):
+                    return const(BoundSym(base, raw, ncls))
             raise Unsupported(f'attribute {attr} of tuple value')
         raise Unsupported(f'attribute {attr} of {k}')
 
@@ -662,6 +671,10 @@ class ExprMixin:
             return self.obj_eq(a, b)
         if kb.is_obj:
             return self.obj_eq(b, a)
+        if ka.is_dict and kb.name == 'emptydict' or kb.is_dict and ka.name == 'emptydict':
+            d = a if ka.is_dict else b
+            y = z3.Const('y!ed', sort_of(d.kind.key))
+            return z3.ForAll([y], z3.Not(z3.Select(self.dict_has(d), y)))
         if ka.is_ref and kb.is_ref:
             if self.term_mode:
                 return a.t == b.t
